@@ -124,7 +124,7 @@ class Runner:
     def build(self, ob, d, witness):
         os.makedirs(d, exist_ok=True)
         if ob.gen:
-            gd = os.path.join(os.path.dirname(d), 'gen')
+            gd = os.path.join(d, 'gen')    # one per build (main / witness run concurrently)
             os.makedirs(gd, exist_ok=True)
             ob.gen(gd)          # regenerated from /repo's current sources on every run
             ob._gendir = gd
@@ -644,8 +644,9 @@ class Runner:
         ev['coverage'].update(self.extra_cov)
         ev['coverage']['states'] = max(1, ev['coverage']['states'])
         ev['coverage']['transitions'] = max(1, ev['coverage']['transitions'])
-        os.makedirs(os.path.join(VERIF, 'evidence'), exist_ok=True)
-        path = os.path.join(VERIF, 'evidence', self.prop + '.json') if not self.only else os.path.join(self.scratch, 'partial-evidence.json')
+        evdir = os.environ.get('VERIF_EVIDENCE_DIR') or os.path.join(VERIF, 'evidence')   # redirected only by seeded/tools/trial.sh
+        os.makedirs(evdir, exist_ok=True)
+        path = os.path.join(evdir, self.prop + '.json') if not self.only else os.path.join(self.scratch, 'partial-evidence.json')
         with open(path, 'w') as f:
             json.dump(ev, f, indent=1)
 
